@@ -676,8 +676,11 @@ macro_rules! impl_graph_traits {
                 &mut self,
                 n: <$graph_type<N, E, Ix> as GraphBase>::NodeId,
             ) -> Option<N> {
+                // An absent node has no position: leave the order untouched.
+                self.graph.node_weight(n)?;
                 self.order_map.remove_node(n, &self.graph);
-                self.graph.remove_node(n)
+                let weight = self.graph.remove_node(n);
+                weight
             }
         }
 
